@@ -213,3 +213,28 @@ for nm, d in (("half", "H_HALF_ROUNDTRIP"), ("single", "H_SINGLE_ROUNDTRIP"), ("
       enforce=None, mode="plain", unwind=10, replay="floats", min_covers=2, cost=5,
       also_verified=["_cbor_load_%s" % ("float" if nm == "single" else nm), "_cbor_decode_half", "cbor_encode_" + nm],
       note="loop-free code, full symbolic domain: complete (the only loop is the 8-iteration byte assembly in the harness)")
+
+# ------------------------------------------------------------------------------------------------
+# C16: UTF-8 code point count
+UNILIB = ["cbor/internal/unicode.c"]
+UNI_STUBS = ALLOC_STUBS + ["stubs/unicode_ghost.c"]
+
+P(name="utf8_step_bisimulation", props={"C16": FUNC + FRAME, "C01": SAFETY}, lib=UNILIB, stubs=UNI_STUBS,
+  contracts=["contracts/unicode.h"], harness="harness/unicode.c", defines=["H_DECODE_STEP"],
+  enforce="_cbor_unicode_decode", must_exist=[r"_cbor_unicode_decode\.postcondition\.2"], min_covers=4, cost=3, replay="utf8")
+
+P(name="utf8_count_loop", props={"C16": FUNC + FRAME, "C01": SAFETY}, lib=UNILIB, stubs=UNI_STUBS,
+  contracts=["contracts/unicode.h"], harness="harness/unicode.c", defines=["H_COUNT"],
+  enforce="_cbor_unicode_codepoint_count", replace=["_cbor_unicode_decode/_cbor_unicode_decode__ghost"],
+  loops="loops/unicode.json", loop_fingerprint={"_cbor_unicode_codepoint_count": 1},
+  must_exist=[r"_cbor_unicode_codepoint_count\.loop_invariant_step\.\d+", r"_cbor_unicode_codepoint_count\.loop_decreases\.\d+",
+              r"_cbor_unicode_codepoint_count\.postcondition\.4"], min_covers=4, cost=10)
+
+P(name="utf8_count_bounded8", props={"C16": SAFETY}, lib=UNILIB, stubs=UNI_STUBS, contracts=[],
+  harness="harness/unicode.c", defines=["H_COUNT_BOUNDED", "UTF8_BOUND=8"], enforce=None, mode="plain",
+  unwind=10, kind="bounded", bound="all byte strings of length <= 8 (cross-check of the ghost-run argument)",
+  replay="utf8", min_covers=2, cost=10)
+
+P(name="utf8_count_bounded16", tier="thorough", props={"C16": SAFETY}, lib=UNILIB, stubs=UNI_STUBS, contracts=[],
+  harness="harness/unicode.c", defines=["H_COUNT_BOUNDED", "UTF8_BOUND=16"], enforce=None, mode="plain",
+  unwind=18, kind="bounded", bound="all byte strings of length <= 16", replay="utf8", min_covers=2, cost=60)
